@@ -130,7 +130,8 @@ def undo(key, d, baseline=None):
                         continue
                     _counter[0] += 1
                     params, body = _instantiate(h, _counter[0], args)
-                    stmts = [{"k": "let", "pat": p, "init": a, "sp": site.get("sp")} for p, a in zip(params, args)]
+                    ptys = list(fns.get(q, {}).get("inputs", [])) + [""] * len(params)
+                    stmts = [{"k": "let", "pat": p, "init": a, "sp": site.get("sp"), "param_of": q, "param_ty": ptys[i_]} for i_, (p, a) in enumerate(zip(params, args))]
                     keep = {"ty": site.get("ty"), "sp": site.get("sp")}
                     site.clear()
                     site.update({"k": "block", "stmts": stmts, "tail": body, "inlined": q})
